@@ -558,6 +558,63 @@ def rfc7797_json_unprotected(b64_i: int, with_crit: bool, p0: bool, v0: bool) ->
 
 
 # ------------------------------------------------------------------ replay against the real code
+# ------------------------------------------------------------------ two-step API: extract several tokens, validate one of them
+H2, P2, S2 = b"HDRSEG2", b"PAYSEG2", b"SIGSEG2"
+
+
+def twostep_compact(which: int, order: bool, vr: bool) -> bool:
+    """
+    pre: 0 <= which <= 1
+    post: _
+    """
+    rt.tick()
+    env = ice.Env(True, [vr, vr])
+    env.bind_b64(H, b"HDRJSON")
+    env.bind_json(b"HDRJSON", lambda: {"alg": "HS256"})
+    env.bind_b64(H2, b"HDRJSON2")
+    env.bind_json(b"HDRJSON2", lambda: {"alg": "HS256", "typ": "x"})
+    env.bind_b64(P, PAYLOAD)
+    env.bind_b64(P2, b"other-payload")
+    env.bind_b64(S, sigv("HS256"))
+    env.bind_b64(S2, sigv("HS256", 2))
+    toks = [H + b"." + P + b"." + S, H2 + b"." + P2 + b"." + S2]
+    with env.installed():
+        objs = [None, None]
+        try:
+            for i in ((0, 1) if order else (1, 0)):
+                objs[i] = jws.extract_compact(toks[i])
+            ok = jws.validate_compact(objs[which], _KA, ["HS256"])
+        except ice.HarnessError:
+            raise
+        except Exception:  # noqa
+            return False                         # both tokens are well formed
+    cmp_ = env.of("compare")
+    if len(cmp_) != 1 or ok != vr:
+        return False
+    want_sig = sigv("HS256", 1 + which)
+    mac = ice.mac_tag("sha256", _KA.raw_value, [H + b"." + P, H2 + b"." + P2][which])
+    c = cmp_[0]
+    if not ((c["a"] == want_sig and c["b"] == mac) or (c["b"] == want_sig and c["a"] == mac)):
+        return False                             # the verdict is about another token's octets
+    return objs[which].payload == [PAYLOAD, b"other-payload"][which] and objs[which].protected == [{"alg": "HS256"}, {"alg": "HS256", "typ": "x"}][which]
+
+
+def replay_twostep(which, order):
+    from vlib import refjose as R
+    from joserfc.jwk import OctKey
+    jwks = [dict(R.test_key("oct32")), dict(R.test_key("oct32"), k=R.b64e(b"another-32-octet-secret-for-hs256"))]
+    toks = [R.compact_sign({"alg": "HS256"}, b"payload-%d" % i, jwks[i]) for i in range(2)]
+    objs = [None, None]
+    for i in ((0, 1) if order else (1, 0)):
+        objs[i] = jws.extract_compact(toks[i].encode())
+    keys = [OctKey.import_key(j) for j in jwks]
+    res = [jws.validate_compact(objs[which], keys[j], ["HS256"]) for j in range(2)]
+    want = [j == which for j in range(2)]
+    bad = res != want or objs[which].payload != b"payload-%d" % which
+    return {"violated": bad, "key": "c01-twostep", "detail": "extract_compact of two tokens (%s), then validate_compact(token %d): verdicts under key0/key1 = %r "
+            "(an independent verifier says %r), payload %r" % ("0 then 1" if order else "1 then 0", which, res, want, objs[which].payload)}
+
+
 def _real_keys(keyform):
     from joserfc.jwk import OctKey
     from vlib import refjose as R
@@ -641,6 +698,8 @@ def replay(func, call):
     warnings.simplefilter("ignore")
     from vlib import refjose as R
     args = eval("(" + call + ",)")
+    if func == "twostep_compact":
+        return replay_twostep(args[0], args[1])
     if func.startswith("compact_"):
         keyform, allow_i, p_empty, s_empty, hdr_bad = 0, 0, False, False, 0
         if func == "compact_header_members":
